@@ -108,7 +108,7 @@ void LoadData(const JSON& data, ccl::semantic::RSModel& model) {
           }
         }
       }
-      if (it->contains("texts")) {
+      if (it->contains("texts") && model.Values().TextFor(uid) != nullptr) {
         model.Values().LoadData(uid, it->at("texts").get<TextInterpretation>());
       }
     } else if (!ccl::semantic::IsCallable(type) && it->contains("value")) {
